@@ -3,6 +3,8 @@ package progs
 import (
 	"fmt"
 	"strings"
+
+	"github.com/goplus/xgo/cl"
 )
 
 // Unit is a small program fragment: the body of a function of the packed program.
@@ -30,6 +32,17 @@ type Options struct {
 	Imports    []string
 	PerProgram int
 	FileName   string // default main.xgo
+	Conf       func(*cl.Config)  // optional tweak of the compiler configuration (e.g. RelativeBase)
+	XGoFiles   map[string]string // further files of the subject package (e.g. "Rect.gox"), shared by all units
+	GoFiles    map[string]string // further files of the reference package (plain Go, must start with "package main")
+}
+
+func (o Options) compile(src string) ([]byte, error) {
+	files := map[string]string{o.FileName: src}
+	for n, t := range o.XGoFiles {
+		files[n] = t
+	}
+	return CompileXGoFiles(files, o.Conf)
 }
 
 func header(imports []string) string {
@@ -118,12 +131,12 @@ func RunUnits(units []Unit, o Options) ([]UnitResult, error) {
 		for i := start; i < end; i++ {
 			idx = append(idx, i)
 		}
-		if _, err := CompileXGo(o.FileName, Source(units, idx, o, true), nil); err == nil {
+		if _, err := o.compile(Source(units, idx, o, true)); err == nil {
 			ok = append(ok, idx...)
 			continue
 		}
 		for _, i := range idx {
-			_, err := CompileXGo(o.FileName, Source(units, []int{i}, o, true), nil)
+			_, err := o.compile(Source(units, []int{i}, o, true))
 			if err != nil {
 				res[i].CompileErr = firstLines(err.Error(), 3)
 				continue
@@ -151,7 +164,7 @@ func RunUnits(units []Unit, o Options) ([]UnitResult, error) {
 	mk := func(idx []int, tag string) *pack {
 		p := &pack{idx: idx}
 		src := Source(units, idx, o, true)
-		out, err := CompileXGo(o.FileName, src, nil)
+		out, err := o.compile(src)
 		if err != nil {
 			// units compiled alone but not together: fall back to singles by the caller
 			return nil
@@ -166,6 +179,12 @@ func RunUnits(units []Unit, o Options) ([]UnitResult, error) {
 				}
 			}
 			p.rf = &Prog{Name: "r" + tag, GoSrc: []byte(Source(units, ridx, o, false))}
+			if len(o.GoFiles) > 0 {
+				p.rf.Extra = map[string][]byte{}
+				for n, t := range o.GoFiles {
+					p.rf.Extra[n] = []byte(t)
+				}
+			}
 			all = append(all, p.rf)
 		}
 		return p
